@@ -12,13 +12,14 @@ class C13(Prop):
             "input, kill) replayed against the real stream.ProcessorNode between a feeder and a collector, compared "
             "call by call with the model; every 5th case is free running (records flowing, up to 6 concurrent "
             "Reconfigure goroutines with failing Opens and timed cancels, graceful close or kill) and judged by the "
-            "monitor only; thorough adds every schedule up to length 5 over {A,R1,R0,O,P,C0,C1,X}. one case checks the "
-            "v2 sentinel. distinct = distinct input JSON; non-trivial = at least one record and one request whose new "
+            "monitor only; every 10th case drives the real lifecycle.Service.ReconfigureProcessor (processor.Service, "
+            "RunnableProcessor, running flag probed through processor.Service.Update) on a running v1 pipeline s1->p1->d1; "
+            "thorough adds every schedule up to length 5 over {A,R1,R0,O,P,C0,C1,X}. one case checks the v2 sentinel. distinct = distinct input JSON; non-trivial = at least one record and one request whose new "
             "processor was opened by the node")
     trusted_base = [
         "Coq 8.16.1 kernel + vm_compute (no native_compute)",
         "Go harness harness/cmd/c13 (fake processors with gates, feeder, collector, quiescence detection through "
-        "the read-only hook stream.(*ProcessorNode).VerifPendingSwap)",
+        "the read-only hook stream.(*ProcessorNode).VerifPendingSwap) and harness/lib/stopx for the service-level cases",
         "python driver verifpy/core.py",
         "hand-written model coq/Swap/Swap.v of ProcessorNode.Run / Reconfigure / applyPendingSwap; atomicity of the "
         "model's actions rests on swapMu, on Processor being touched by the Run goroutine only and on the buffered "
@@ -34,8 +35,8 @@ class C13(Prop):
 
     def shards(self, tier, seed):
         if tier == "quick":
-            return [["--seed", str(seed), "--n", "250"] for _ in range(NCPU)]
-        rnd = [["--seed", str(seed), "--n", "2500"] for _ in range(NCPU)]
+            return [["--seed", str(seed), "--n", "150"] for _ in range(NCPU)]
+        rnd = [["--seed", str(seed), "--n", "5000"] for _ in range(NCPU)]
         exh = [["--seed", str(seed), "--mode", "exhaustive:%d/%d" % (i, NCPU)] for i in range(NCPU)]
         return rnd + exh
 
@@ -64,7 +65,7 @@ class C13(Prop):
         return "live reconfigure: the ProcessorNode left the model for input %s" % (case["input"],)
 
     def distribution(self, cases):
-        d = {"lock": 0, "race": 0, "v2": 0, "with_kill": 0, "with_close": 0, "requests": 0, "swaps_applied": 0,
+        d = {"lock": 0, "race": 0, "svc": 0, "v2": 0, "with_kill": 0, "with_close": 0, "requests": 0, "swaps_applied": 0,
              "open_failed": 0, "busy": 0, "cancelled": 0, "records": 0}
         for c in cases:
             i, o = c["input"], c.get("observed") or {}
